@@ -207,6 +207,20 @@ type Writer struct {
 	failed bool
 	Calls  int
 	Fired  bool
+
+	Sizes []int // bytes offered per Write call (fault-free bookkeeping)
+	Offs  []int // offset in Buf at which each call started
+
+	// transient fault: the onceAt-th Write call (1-based) accepts nothing and
+	// returns onceErr; every other call is healthy
+	onceAt  int
+	onceErr error
+}
+
+// FailOnceAtCall plans a TRANSIENT fault: call number n (1-based) accepts no
+// bytes and returns err; the sink is healthy before and after.
+func (w *Writer) FailOnceAtCall(n int, err error) {
+	w.onceAt, w.onceErr = n, err
 }
 
 func NewWriter(r *rt.Run, name string) *Writer {
@@ -227,6 +241,14 @@ func (w *Writer) Write(p []byte) (int, error) {
 	w.Calls++
 	r.Tick()
 	r.Yield("write")
+	if w.onceAt > 0 && w.Calls == w.onceAt {
+		w.Fired = true
+		r.Fault("write.transient")
+		r.Event("write", "transient-fault", fmt.Sprintf("%s call=%d len=%d", w.name, w.Calls, len(p)))
+		return 0, w.onceErr
+	}
+	w.Sizes = append(w.Sizes, len(p))
+	w.Offs = append(w.Offs, len(w.Buf))
 	if w.failed {
 		return 0, w.err
 	}
